@@ -412,6 +412,20 @@ def c05_run_design(sr, work, drv, inp, shrink=True, deadline=None, shrunk=None):
     if lt != toks:
         sr.corr_mismatch("lexE(text) = tokens the independent writer laid out", {"kind": "text", "text": text[:2000]}, toks[:50], lt[:50])
     res = c05_eval_text(work, drv, text, expect, trig)
+    # reach of the Lean theorem (evidence only, no verdict depends on it): is this design inside the fragment of
+    # C05.edif_reader_spec / edif_reader_spec_kwcase (syntactic features of ADesign, then the decidable `wf`)?
+    try:
+        why = G.fragment_reasons(inp["d"])
+        if why:
+            sr.dist("theorem_fragment:C05.edif_reader_spec:out:" + why[0])
+        else:
+            fr = drv.ask({"fn": "wf05", "d": G.to_adesign(inp["d"])})
+            if fr.get("in") is True:
+                sr.dist("theorem_fragment:C05.edif_reader_spec:in")
+            else:
+                sr.dist("theorem_fragment:C05.edif_reader_spec:out:" + ("wf." + fr["clause"] if "clause" in fr else "not_representable"))
+    except Exception:
+        sr.dist("theorem_fragment:C05.edif_reader_spec:out:not_representable")
     f = G.features(inp["d"])
     sr.case(stable_hash(inp["d"]), f["nontrivial"])
     sr.dist("c05.design" + (".trigger=" + trig if trig else ""))
@@ -557,6 +571,16 @@ def c03_eval(work, drv, nl, trigger=None, second_pass=True):
     c1 = canon.cnetlist(nl)           # after _edifify_netlist: order + identifiers as the writer chose them
     # (a) writer correspondence: tokens of the file = tokens of the model writer's layout
     m = drv.ask({"fn": "compose", "net": c1, "ts": [0, 0, 0, 0, 0, 0]})
+    # reach of the Lean theorems (evidence only): is the edifified netlist inside `WFNet n ∧ ScalarLower0 n`, the hypothesis of
+    # C03.edif_roundtrip / edif_roundtrip_text / parse_compose_parse (driver: wfNetClause, proved sound: wfNetClause_sound)?
+    try:
+        fr = drv.ask({"fn": "wf03", "net": c1})
+        if fr.get("in") is True:
+            res["tags"].append("theorem_fragment:C03.edif_roundtrip:in")
+        else:
+            res["tags"].append("theorem_fragment:C03.edif_roundtrip:out:" + (fr["clause"] if "clause" in fr else "not_representable"))
+    except Exception:
+        res["tags"].append("theorem_fragment:C03.edif_roundtrip:out:not_representable")
     impl_toks = drv.ask({"fn": "lex", "text": text1})
     if "ok" in m:
         if not m.get("clean", False):
@@ -653,7 +677,7 @@ def c03_run_recipe(sr, work, drv, inp, shrink=True, deadline=None, shrunk=None):
     if f["insts"]:
         sr.dist("c03.hierarchical")
     for t in res["tags"]:
-        sr.dist("c03." + t)
+        sr.dist(t if t.startswith("theorem_fragment:") else "c03." + t)
     for (what, a, b) in res["corr"]:
         sr.corr_mismatch(what, inp, a, b, signature=corr_sig(res, what))
     if res["spec"]:
